@@ -393,6 +393,7 @@ let process_trace header lines =
   let f12 = ref false in
   let stepno = ref 0 in
   let tainted = ref [] in
+  let excess = ref [] in
   let cur_resp = ref "" in
   let check_state () =
     match (!state, !icore) with
@@ -419,7 +420,22 @@ let process_trace header lines =
           List.iter (fun p -> add_mon (Printf.sprintf "M %s FAIL core-invariant-%s step=%d" p names.(which) !stepno)) props
         end;
         if not (hq_ok isys) then add_mon (Printf.sprintf "M C13 FAIL job-counters step=%d" !stepno);
-        if not (hq_core_bijection_ok isys) then add_mon (Printf.sprintf "M C02 FAIL hq-core-bijection step=%d" !stepno);
+        (* finding F26: a submit whose explicit id list is longer than its entry list (no HQ client
+           sends one, the server accepts it) leaves the excess ids as tasks of the job that the
+           core never receives *)
+        (match !cur_op with
+        | Some (OpSubmit (_, ids, Some n, _, _, _, _, _)) when List.length ids > int_of_n n ->
+            List.iteri (fun i x -> if i >= int_of_n n && not (List.mem x !excess) then excess := x :: !excess) ids
+        | _ -> ());
+        if not (hq_core_bijection_ok isys) then begin
+          let core_ids = List.map (fun t -> t.t_id) c.c_tasks in
+          let hq_active = List.concat_map (fun j -> List.filter_map (fun (k, v) -> match v with JW | JR -> Some (j.j_id, k) | _ -> None) j.j_tasks) !ihq in
+          let phantoms = List.filter (fun t -> not (List.mem t core_ids)) hq_active in
+          let orphans = List.filter (fun t -> not (List.mem t hq_active)) core_ids in
+          if orphans = [] && phantoms <> [] && List.for_all (fun (_, k) -> List.mem k !excess) phantoms then
+            add_mon "M C02 KNOWN F26-ids-longer-than-entries a submit with more explicit ids than entries leaves the excess ids as tasks the scheduler never receives"
+          else add_mon (Printf.sprintf "M C02 FAIL hq-core-bijection step=%d" !stepno)
+        end;
         if not (single_execution_ok isys) then add_mon (Printf.sprintf "M C06 FAIL two-executions step=%d" !stepno);
         ignore ms
     | _ -> ()
